@@ -602,6 +602,12 @@ func GoNamed(name string, f func()) *Task {
 	return t
 }
 
+// Close replaces a deferred close(ch): scheduling point, then the close.
+func Close(ch any) {
+	PreNB(ch)
+	reflect.ValueOf(ch).Close()
+}
+
 // CurrentTask returns the id of the running task (0 outside a simulation).
 func CurrentTask() int {
 	if s := active(); s != nil && s.cur != nil {
